@@ -323,6 +323,9 @@ def run(prog, chk, tier):
     m = bf3.model(prog)
     if m.rb is not None:
         bf3.tag_compare_rules(m, chk, "C06")
+    # the ciphertext must sit where the directory says: addresses advance by the stored (padded) length, not by the content length
+    if bf3.rule_writer_layout(m, chk, "C06"):
+        bf3.writer_rules(m, chk, "C06", want={"absolute-addresses", "length-prefix"})
     no_plaintext_fallback(prog, chk, "C06")
     secrecy_taint(prog, chk, "C06")
     adapter.adapter_rules(prog, chk, "C06", want={"encrypt", "decrypt", "fresh-mode"})
